@@ -258,6 +258,41 @@ def config_read(ctx) -> None:
     ctx.check(ret is not None and core.src(ret.value) == f"Bank.Path(f'{{self.value}}.{{{sfx}}}', explicit=False)", 'C20.read', td, 'a path derived for an alias lookup is never explicit (a miss there falls through to the other search paths)', ret or td.node, key='Path.__truediv__')
 
 
+def sink_modes(ctx) -> None:
+    """[SINK] index: each mode takes its own reference and falls back to ``default`` - to nothing else (``eval`` falling back
+    to ``apply`` would hand the evaluation sink of a stack that only overrides ``apply`` to the wrong provider, and would find
+    a sink where the missing error is due).  Decided on the values of ``apply`` / ``evaluate`` with temporaries resolved."""
+    prog = ctx.prog
+    fn = prog.func('forml.setup._provider:Sink.Mode.resolve')
+    defs: dict = {}
+    for a in core.walk_local(fn.node):
+        if isinstance(a, ast.Assign):
+            for t in a.targets:
+                if isinstance(t, ast.Name):
+                    defs.setdefault(t.id, []).append(a.value)
+
+    def resolve(e: ast.AST, depth: int = 0) -> ast.AST:
+        class R(ast.NodeTransformer):
+            def visit_Name(self, n):  # noqa: N802
+                vals = [v for v in defs.get(n.id, []) if not (isinstance(v, ast.Name) and v.id == 'reference')]
+                if isinstance(n.ctx, ast.Load) and len(vals) == 1 and depth < 6:
+                    return resolve(vals[0], depth + 1)
+                return n
+
+        return R().visit(ast.parse(ast.unparse(e), mode='eval').body)
+
+    ret = next((r for r in core.walk_local(fn.node) if isinstance(r, ast.Return)), None)
+    modes = []
+    if ret is not None and isinstance(ret.value, ast.Call) and ret.value.args and isinstance(ret.value.args[0], (ast.List, ast.Tuple)):
+        for e in ret.value.args[0].elts:
+            if isinstance(e, ast.Call) and core.src(e.func) == 'Sink.resolve' and len(e.args) == 1:
+                modes.append(ast.unparse(resolve(e.args[0])))
+    index = '_conf.CONFIG[cls.INDEX]'
+    default = f'{index}.get(_conf.OPT_DEFAULT)'
+    want = [f'{index}.get(_conf.OPT_APPLY, {default})', f'{index}.get(_conf.OPT_EVAL, {default})']
+    ctx.check(modes == want, 'C20.sections', fn, f'(apply, eval) sinks = own option of the [SINK] index, else its `default` option: {modes}', ret or fn.node, key='sink:mode-fallback')
+
+
 def qualifier_path(ctx) -> None:
     """A ``module:Class`` reference is looked for in *its module*: ``Qualifier.paths`` offers the single path ``Bank.Path(self.module,
     explicit=False)``; an alias is looked for below the base paths (``base / self``).  Any other field there (the qualname)
@@ -301,4 +336,5 @@ def run(ctx) -> None:
     merge_cases(ctx)
     provider_bank(ctx)
     sections(ctx)
+    sink_modes(ctx)
     shared.argname_scope(ctx, ('forml.setup', 'forml.provider.__init__'), floor=2)
